@@ -5,17 +5,20 @@ operation on stdout.  The first word of a line selects the core.
 specification's.
 -/
 import Mqtt.Driver.AckQ
+import Mqtt.Driver.Ring
 
 namespace Mqtt.Driver
 
 structure DState where
   ackq : AckQ.St := AckQ.St.init
+  ring : Ring.DSt := Ring.DSt.init
 
 def dispatch (st : DState) (line : String) : DState × String × String :=
   match words line with
   | "ackq" :: rest =>
     let (a, m, s) := AckQ.handle st.ackq rest
     ({ st with ackq := a }, m, s)
+  | "ring" :: rest => let (r, m, s) := Ring.handle st.ring rest; ({ st with ring := r }, m, s)
   | [] => (st, "", "")
   | _ => (st, "bad-core", "bad-core")
 
